@@ -96,6 +96,18 @@ impl Expr
 
 impl Value
 {
+	/// Compares values, also taking into account
+	/// the size of integers.
+	pub fn is_identical(&self, other: &Value) -> bool
+	{
+		match (self, other)
+		{
+			(Value::Integer(a), Value::Integer(b)) => a.is_identical(b),
+			_ => self == other,
+		}
+	}
+
+
 	pub fn is_unknown(&self) -> bool
 	{
 		match self
